@@ -47,6 +47,8 @@ type Opts struct {
 	// with \" and \\, regexes with \/, tiny bucket bounds, integral float
 	// literals, hidden / as / limit attributes.
 	Fmt bool
+	// MetricPrefix is prepended to every metric name (several programs in one store).
+	MetricPrefix string
 }
 
 // ---------------------------------------------------------------------
@@ -244,7 +246,7 @@ func (g *genCtx) metric(kind string, t Type, nkeys int) *Metric {
 			kind = ev.PickOne(g.r, []string{"counter", "gauge", "gauge", "timer"})
 		}
 	}
-	m := &Metric{Name: fmt.Sprintf("m%d", len(g.metrics)), Kind: kind, Type: t}
+	m := &Metric{Name: fmt.Sprintf("%sm%d", g.o.MetricPrefix, len(g.metrics)), Kind: kind, Type: t}
 	for i := 0; i < nkeys; i++ {
 		m.Keys = append(m.Keys, fmt.Sprintf("k%d", i))
 		kt := TString
